@@ -185,7 +185,9 @@ class TranslatorC(Translator):
                 if arg.size <= self.NATIVE_INT_MAX_SIZE:
                     out = "%s(0x%x, %s)" % (expr.op, expr.args[0].size, out)
                 else:
-                    out = "bignum_%s(%s, %d)" % (expr.op, out, arg.size)
+                    out = "bignum_from_uint64(bignum_%s(%s, %d))" % (
+                        expr.op, out, arg.size
+                    )
                 return out
 
             elif expr.op == '!':
